@@ -8,6 +8,7 @@ Events of one System object form one trace; nested calls (rail_rep -> solve, fro
 add_comp) are not logged.  `after == "="` is a log compression: the projection is byte-identical
 to the previously logged one of that object.
 """
+from decwire import excname
 import contextlib
 import copy
 import functools
@@ -197,7 +198,7 @@ class Recorder:
                     return orig(s, *a, **kw)
                 except Exception as e:
                     ev["outcome"] = "exc"
-                    ev["exc"] = type(e).__name__
+                    ev["exc"] = excname(e)
                     raise
                 finally:
                     rec.depth -= 1
@@ -232,7 +233,7 @@ class Recorder:
                     return r
                 except Exception as e:
                     ev["outcome"] = "exc"
-                    ev["exc"] = type(e).__name__
+                    ev["exc"] = excname(e)
                     ev["msg"] = str(e)[:120]
                     raise
                 finally:
